@@ -423,6 +423,110 @@ func runCase(env *rig.Env, send sender, c Case, label string, ordered bool) {
 	resMu.Unlock()
 }
 
+// concurrentPairs forces the interleaving "A's handler has returned, A's reply is not yet written; B is processed
+// completely; then A continues" with a gate in an 'after' middleware: replies of concurrently processed requests
+// must not be mixed up.
+func concurrentPairs(kind, proto string) {
+	parked := make(chan struct{}, 1)
+	release := make(chan struct{})
+	var holdSeq int64 = -1
+	var hmu sync.Mutex
+	gate := func(next frugal.InvocationHandler) frugal.InvocationHandler {
+		return func(svc reflect.Value, m reflect.Method, args frugal.Arguments) frugal.Results {
+			r := next(svc, m, args)
+			if id, ok := args[1].(verifrpc.ID); ok {
+				hmu.Lock()
+				hold := int64(id)/10 == holdSeq
+				hmu.Unlock()
+				if hold {
+					parked <- struct{}{}
+					<-release
+				}
+			}
+			return r
+		}
+	}
+	env, err := rig.Start(kind, proto, gate)
+	if err != nil {
+		fmt.Fprintln(os.Stderr, err)
+		os.Exit(2)
+	}
+	defer env.Stop()
+	env.Handler.Script = script
+	outcomes := []string{"ok", "declared", "undeclared", "appex"}
+	want := map[string]Reply{"ok": {0, "REPLY", "result"}, "declared": {0, "REPLY", "declared-exception"},
+		"undeclared": {0, "EXCEPTION", "INTERNAL_ERROR"}, "appex": {0, "EXCEPTION", "handler-type"}}
+	mk := func() sender {
+		switch kind {
+		case "tcp":
+			return tcpSender(env.Addr)
+		case "http":
+			return httpSender(env.Addr)
+		}
+		nc, _ := env.Nats.Conn()
+		return natsSender(nc, env.Addr)
+	}
+	for _, ka := range outcomes {
+		for _, kb := range outcomes {
+			if ka == kb {
+				continue
+			}
+			seqA, seqB := int(nextOp())*100+1, int(nextOp())*100+2
+			opA, opB := nextOp(), nextOp()
+			reqA := request(env.PF, proto, ka, seqA, opA)
+			reqB := request(env.PF, proto, kb, seqB, opB)
+			hmu.Lock()
+			holdSeq = int64(seqA)
+			hmu.Unlock()
+			release = make(chan struct{})
+			type out struct {
+				raw [][]byte
+				p   string
+			}
+			ca := make(chan out, 1)
+			sa, sb := mk(), mk()
+			go func() { r, p := sa([][]byte{reqA}, 1); ca <- out{r, p} }()
+			label := kind + "/concurrent-pair"
+			rp := map[string]interface{}{"server": kind, "protocol": proto, "held_request": ka, "overtaking_request": kb}
+			select {
+			case <-parked:
+			case <-time.After(2 * time.Second):
+				res.Notes = append(res.Notes, "concurrent pair: request A never reached the gate")
+				close(release)
+				<-ca
+				continue
+			}
+			rb, _ := sb([][]byte{reqB}, 1)
+			close(release)
+			ra := <-ca
+			check := func(name string, raw [][]byte, k string, op uint64) {
+				if len(raw) != 1 {
+					resMu.Lock()
+					res.Violations = append(res.Violations, Violation{label + "/reply-count", fmt.Sprintf("%s server, %s: request %s (%s) got %d replies while another request (%s / %s) was processed concurrently", kind, proto, name, k, len(raw), ka, kb), rp})
+					resMu.Unlock()
+					return
+				}
+				p := parseReply(env.PF, raw[0])
+				w := want[k]
+				if p.Err != "" || p.OpID != strconv.FormatUint(op, 10) || p.Type != w.Type || p.What != w.What {
+					resMu.Lock()
+					res.Violations = append(res.Violations, Violation{label + "/reply-mixed-up/" + k, fmt.Sprintf("%s server, %s: request %s (handler outcome %s, op id %d) was answered with %s %s (op id %s, %s) while request with outcome %s was processed between its handler's return and its reply", kind, proto, name, k, op, p.Type, p.What, p.OpID, p.Err, map[string]string{"A": kb, "B": ka}[name]), rp})
+					resMu.Unlock()
+				}
+			}
+			check("A", ra.raw, ka, opA)
+			check("B", rb, kb, opB)
+			resMu.Lock()
+			res.Runs++
+			res.Requests += 2
+			resMu.Unlock()
+		}
+	}
+	hmu.Lock()
+	holdSeq = -1
+	hmu.Unlock()
+}
+
 func min(a, b int) int {
 	if a < b {
 		return a
@@ -516,6 +620,9 @@ func main() {
 				}
 			}
 			env.Stop()
+			if kind != "tcp" || true {
+				concurrentPairs(kind, proto)
+			}
 		}
 	}
 	b, _ := json.MarshalIndent(res, "", " ")
